@@ -9,7 +9,7 @@ pub const WIDTHS: &[usize] = &[0, 1, 20, 40, 80, 120, 400];
 pub const TABS: &[usize] = &[1, 2, 4, 8];
 
 fn gen_cfg(rng: &mut Rng) -> Cfg {
-    Cfg { column: *rng.pick(WIDTHS), tab: *rng.pick(TABS), reorder: rng.chance(0.4) }
+    Cfg { column: *rng.pick(WIDTHS), tab: *rng.pick(TABS), reorder: rng.chance(0.4), blank: *rng.pick(&[2usize, 2, 2, 0, 1, 3, 5]) }
 }
 
 fn char_boundary_floor(s: &str, mut i: usize) -> usize {
